@@ -88,6 +88,7 @@ type ProviderSpec struct {
 	DeclOrder         int
 	IsReturnError     bool
 	IsAsync           bool
+	IsVariadic        bool // the last requirement is the slice behind a variadic parameter: passed as arg...
 }
 
 type Return struct {
